@@ -2,6 +2,7 @@ import FinamModel.DriverUtil
 import FinamModel.DriverGrid
 import FinamModel.DriverMeta
 import FinamModel.DriverConnect
+import FinamModel.DriverRegrid
 import FinamModel.Output
 import FinamModel.DriverTime
 import FinamModel.DriverLink
@@ -35,7 +36,9 @@ def handleC09 (j : Json) : Json :=
 def handlers : List (String × (Json → Json)) := [
   ("c19", C19.handle),
   ("c17", C17.handle), ("c17table", C17.table),
+  ("c07", C07.handle),
   ("c06", C06.handle),
+  ("c16", C16.handle),
   ("c09", handleC09),
   ("c08", C08.handle)
 ] ++ gridHandlers ++ Sched.handlers ++ timeHandlers
